@@ -98,6 +98,7 @@ type ProbeRec struct {
 	Accepted bool          `json:"accepted"`
 	Path     string        `json:"path,omitempty"`
 	Ended    bool          `json:"ended"`
+	HungUp   bool          `json:"hung_up,omitempty"` // the prober closed the connection before the (delayed) answer
 }
 
 type ReqRec struct {
@@ -565,7 +566,11 @@ func (ft *FakeTarget) serveProbe(c net.Conn, act ProbeAct, rec *ProbeRec) {
 	ft.mu.Lock()
 	rec.Path = req.URL.RequestURI()
 	ft.mu.Unlock()
-	if act.Delay > 0 && !w.sleep(act.Delay) {
+	if act.Delay > 0 && !ft.waitOrClosed(c, br, act.Delay) {
+		// the prober hung up (or the world ended) while the target was still thinking
+		ft.mu.Lock()
+		rec.End, rec.Ended, rec.HungUp = w.Now(), true, true
+		ft.mu.Unlock()
 		return
 	}
 	if act.Close || act.Status == 0 {
